@@ -32,7 +32,7 @@ if os.environ.get("MUT_PINNED"):
     r = subprocess.run(["go", "test", "-vet=off", "-count=1", "./..."], cwd=moddir, env=env, capture_output=True, text=True)
     print("MUT %s: pinned suite %s" % (name, "PASS" if r.returncode == 0 else "FAIL (mutant not admissible)"))
     if r.returncode != 0:
-        print(r.stdout[-1500:])
+        print("   " + " | ".join([l for l in r.stdout.splitlines() if l.startswith("--- FAIL")][:3]))
 env["VERIF_REPO"] = d
 for pid in props.split(","):
     r = subprocess.run(["/verif/check", pid, tier], env=env, capture_output=True, text=True)
